@@ -126,6 +126,31 @@ fn one_case(ctx: &Ctx, case: u64, l: &mut Local) {
             let a = run(fmt0, &issued.sd_jwt);
             let b = run(other, &trans);
             l.evals += 1;
+            // the two holders' own (key-bound) presentations meet the same fate at the verifier
+            if let Some(k) = &kb {
+                let full = |f: Fmt, text: &str| -> &'static str {
+                    match api::holder_new(text, f) {
+                        Outcome::Ok(mut h) => match api::present(&mut h, &sel, Some(k)) {
+                            Outcome::Ok(p) => api::verify(&p, &Resolver::Fixed(cfg.alg, 0), Some((k.aud.as_str(), k.nonce.as_str())), f).out.class(),
+                            o => if o.is_panic() { "panic" } else { "present-err" },
+                        },
+                        o => if o.is_panic() { "panic" } else { "holder-err" },
+                    }
+                };
+                let (va, vb) = (full(fmt0, &issued.sd_jwt), full(other, &trans));
+                l.evals += 1;
+                if va == vb {
+                    l.count("holder.key-bound-presentations.same-verdict");
+                } else {
+                    l.violate(Violation {
+                        subcheck: "formats-diverge".into(),
+                        class: "key-bound presentation made by a holder of each form of the issued SD-JWT".into(),
+                        observed: format!("{}={} {}={}", fmt0.name(), va, other.name(), vb),
+                        case,
+                        detail: json!({"credential": desc, "history": api::history()}),
+                    });
+                }
+            }
             if a == b && a.is_ok() {
                 l.count("holder.same-selection");
             } else if a.class() == b.class() && !a.is_ok() {
